@@ -592,3 +592,29 @@ silent('C14', 'fleet-batch-snapshot (repairs D4: the known finding must disappea
        lambda p: M.replace_node(p, S_FLT, 'FleetStore.fleet_activation_process', M.is_call('self.move_to_ready_items'), 'self.move_to_ready_items(list(self.items))'))
 silent('C14', 'fleet-trigger-ge',
        lambda p: M.replace_node(p, S_FLT, 'FleetStore._do_put', M.if_testing('== self.capacity'), sub('== self.capacity', '>= self.capacity')))
+
+# ============================================================================================ C19
+fire('C19', 'belt-interrupts-in-set-order', 'C19.R1', 'belt_store.py',
+     lambda p: M.replace_node(p, S_BELT, 'BeltStore.interrupt_and_resume_all_delayed_interrupt_processes', lambda n: isinstance(n, ast.For),
+                              sub('in list(self.active_delayed_interrupt_processes.items())', 'in set(self.active_delayed_interrupt_processes.items())')))
+fire('C19', 'machine-workers-kept-in-a-set', 'C19.R1', 'machine.py',
+     lambda p: M.chain(p, lambda q: M.replace_node(q, N_MAC, 'Machine.__init__', M.assign_to('self.worker_thread_list'), 'self.worker_thread_list = set()'),
+                       lambda q: M.replace_node(q, N_MAC, 'Machine.behaviour', M.stmt_calling('self.worker_thread_list.append'), 'self.worker_thread_list.add(proc)')))
+fire('C19', 'prs-queue-tie-break-by-id', 'C19.R2', 'reservable_priority_req_store.py',
+     lambda p: M.replace_node(p, S_PRS, 'ReservablePriorityReqStore.reserve_put', M.is_call('self.reserve_put_queue.sort'),
+                              'self.reserve_put_queue.sort(key=lambda e: (e.priority_to_put, id(e)))'))
+fire('C19', 'source-compares-hashes', 'C19.R2', 'source.py',
+     lambda p: M.insert_before(p, N_SRC, 'Source.behaviour', M.assign_to("self.stats['num_item_generated']"), 'if hash(item) < 0:\n    pass'))
+fire('C19', 'utils-private-generator', 'C19.R3', 'utils.py',
+     lambda p: M.replace_node(p, U, 'Random_edge_selector', M.is_call('random.randint'), 'random.SystemRandom().randint(0, len(edges) - 1)'))
+fire('C19', 'belt-numpy-random-jitter', 'C19.R3', 'belt_store.py',
+     lambda p: M.replace_node(p, S_BELT, 'BeltStore.move_to_ready_items', M.assign_to('phase1_time'), 'phase1_time = item[0].length / self.speed + 0 * np.random.rand()'))
+fire('C19', 'sink-wall-clock-cycle-time', 'C19.R4', 'sink.py',
+     lambda p: M.chain(p, lambda q: {N_SNK: 'import time\n' + q.modules[N_SNK].src},
+                       lambda q: M.insert_after(q, N_SNK, 'Sink.behaviour', M.assign_to("self.stats['num_item_received']"), 'self.buffertime = time.time()')))
+fire('C19', 'fleet-rewinds-clock', 'C19.R5', 'fleet_store.py',
+     lambda p: M.insert_after(p, S_FLT, 'FleetStore._do_put', M.stmt_calling('self.items.append'), 'self.env._now = self.env._now'))
+silent('C19', 'belt-uses-numpy-round',
+       lambda p: M.replace_node(p, S_BELT, 'BeltStore.move_to_ready_items', M.assign_to('phase1_time'), 'phase1_time = float(np.round(item[0].length / self.speed, 12))'))
+silent('C19', 'machine-iterates-worker-list',
+       lambda p: M.insert_before(p, N_MAC, 'Machine.update_final_state_time', lambda n: isinstance(n, ast.For), 'for w in list(self.worker_thread_list):\n    pass'))
